@@ -71,6 +71,9 @@ def jobs(tier):
                     ts = [ts[0], ts[2]]
                 for i in range(0, len(ts), 2):
                     out.append(("gvc.props.c08", "ob_whiten", dict(D=D, groups=groups, gi=gi, ts=[list(t) for t in ts[i:i + 2]])))
+    # dependency: "g.x" in the statement is the library's action; the obligations use act_spec (owned by C02)
+    from .common import dep_jobs
+    out += dep_jobs("gvc.props.c02", lambda fn, kw: fn == "ob_entry" and kw["D"] >= 2)
     return out
 
 
